@@ -1,4 +1,5 @@
 import PynguinModel.Lemmas.Generators
+import PynguinModel.Lemmas.GeneratorsUpdate
 /-!
 # C26 — Generator selection offers only type-compatible generators
 
@@ -19,6 +20,12 @@ Three clauses:
    `add_subclass_edge` (`cached_answers_current`, `cached_agree_with_recomputation`); the code as found serves stale
    answers (`memo_stale_cex`) unless all edges precede all queries (`memo_fresh_if_no_late_edges`); even there a
    memoised `True` never becomes wrong (`memo_monotone`, `subtype_monotone_in_edges`).
+4. (clause 1 along histories) run-time return-type observations (`ModuleTestCluster.update_return_type`) re-file a
+   generator under its new type: for ALL histories of additions, observations and late edges every generator sits
+   only in the bucket of its CURRENT generated type (`updates_keep_table_consistent`,
+   `callable_filed_only_under_current_type`), hence both providers offer it only for requests its current type may be
+   a subtype of (`random_sound_after_updates`, `heuristic_sound_after_updates`); `update_files_under_new_type`,
+   `update_keeps_others`; the reversed order of store and drop is refuted (`update_order_matters_cex`).
 -/
 namespace PynguinModel.Generators
 open PynguinModel.Types
@@ -232,5 +239,152 @@ theorem recursion_through_fresh_memo (g : Graph) (anyD : Nat) (u : Bool) (lookB 
 
 example : (run 30 false ⟨gC, []⟩ [.ask (.maybe cSub cBase), .ask (.dist cBase cSub), .edge 11 10,
     .ask (.subclass 10 11), .ask (.maybe cSub cBase)]).2 = [.b true, .d (some 1), .b true, .b true] := by decide
+
+/-! ## 4. run-time return-type observations keep every generator filed under its CURRENT generated type
+
+`ModuleTestCluster.update_return_type` (driven by the `ReturnTypeObserver` after every execution) widens the return
+type of the executed callable and re-files it in the generator table.  For ALL histories of `add_generator`,
+`update_return_type` and `add_subclass_edge` calls the table stays consistent (`updates_keep_table_consistent`), so
+clause 1 keeps holding with respect to the return type the generator has NOW (`random_sound_after_updates`,
+`heuristic_sound_after_updates`), the re-filed generator is found under its new type (`update_files_under_new_type`)
+and nobody else moves (`update_keeps_others`).  Dropping the generator only after the new type was stored breaks this
+(`update_order_matters_cex`). -/
+
+/-- class names as `str(type)` prints them, for the example cluster -/
+def namesC : List String :=
+  ["object", "int", "str", "list", "set", "float", "bool", "m.MyInt", "complex", "m.G", "m.Base", "m.Sub"]
+/-- accessibles: 0 constructor `Sub()`, 1 constructor `Base()`, 2 un-annotated function, 3 `-> list[int]`,
+4 `-> Base`, 5 `-> int` -/
+def accsC : List Acc :=
+  [⟨cSub, some cSub⟩, ⟨cBase, some cBase⟩, ⟨.any, none⟩, ⟨cList cInt, none⟩, ⟨cBase, none⟩, ⟨cInt, none⟩]
+def histC : List WOp :=
+  [.add 0, .add 1, .add 2, .add 3, .add 4, .add 5, .update 2 cSub, .update 0 cSub, .edge 10 9, .update 4 (cList cInt),
+   .update 2 .none, .update 5 cInt, .update 0 cSub, .add 0]
+
+/-- For ALL histories of generator additions, run-time return-type observations and late subclass edges (starting
+from the empty table, constructors' signatures returning their class, and a constructor call being observed to
+return its class): every generator in the table sits in the bucket of its current generated type — or, for a
+constructor, of the one-element union of it. -/
+theorem updates_keep_table_consistent (key : Ty → String) (m : Nat) (prims : List Cls) (g : Graph) (accs : List Acc)
+    (ops : List WOp) (hinit : ∀ a ∈ accs, ∀ F, a.fixed = some F → F.isUnion = false ∧ a.ret = F)
+    (hreal : ∀ op ∈ ops, op.realistic (fixedOf accs)) :
+    ∀ p ∈ (World.run key m prims ⟨g, ⟨[], accs⟩⟩ ops).cl.tbl, ∀ i ∈ p.2,
+      ∃ a, (World.run key m prims ⟨g, ⟨[], accs⟩⟩ ops).cl.accs[i]? = some a ∧
+        (p.1 = a.gen ∨ (a.fixed.isSome = true ∧ p.1 = .union [a.gen])) :=
+  (run_filed key m prims ops ⟨g, ⟨[], accs⟩⟩ (filed_init accs hinit) hreal).filed
+
+/-- … in particular a function or method (no fixed generated type) is filed under its current return type only. -/
+theorem callable_filed_only_under_current_type (key : Ty → String) (m : Nat) (prims : List Cls) (g : Graph)
+    (accs : List Acc) (ops : List WOp) (hinit : ∀ a ∈ accs, ∀ F, a.fixed = some F → F.isUnion = false ∧ a.ret = F)
+    (hreal : ∀ op ∈ ops, op.realistic (fixedOf accs)) (p : Ty × List Nat) (i : Nat) (a : Acc)
+    (hp : p ∈ (World.run key m prims ⟨g, ⟨[], accs⟩⟩ ops).cl.tbl) (hi : i ∈ p.2)
+    (ha : (World.run key m prims ⟨g, ⟨[], accs⟩⟩ ops).cl.accs[i]? = some a) (hf : a.fixed = none) : p.1 = a.ret := by
+  obtain ⟨b, hb, hk⟩ := updates_keep_table_consistent key m prims g accs ops hinit hreal p hp i hi
+  rw [ha] at hb; cases hb
+  rcases hk with hk | ⟨hs, _⟩
+  · rw [hk, gen_of_not_fixed hf]
+  · rw [hf] at hs; cases hs
+
+example : (∀ a ∈ accsC, ∀ F, a.fixed = some F → F.isUnion = false ∧ a.ret = F) ∧
+    (∀ op ∈ histC, op.realistic (fixedOf accsC)) := by
+  refine ⟨?_, ?_⟩
+  · intro a ha F hF
+    simp only [accsC, List.mem_cons, List.not_mem_nil, or_false] at ha
+    rcases ha with rfl | rfl | rfl | rfl | rfl | rfl <;> simp at hF <;> subst hF <;> exact ⟨rfl, rfl⟩
+  intro op hop
+  simp only [histC, List.mem_cons, List.not_mem_nil, or_false] at hop
+  rcases hop with rfl | rfl | rfl | rfl | rfl | rfl | rfl | rfl | rfl | rfl | rfl | rfl | rfl | rfl <;>
+    simp [WOp.realistic, fixedOf, accsC]
+
+example : (World.run (tyStr namesC) 5 primsC ⟨gC, ⟨[], accsC⟩⟩ histC).cl.tbl =
+    [(cBase, [1]), (cList cInt, [3]), (.union [cSub], [0]), (.union [cList cInt, cBase], [4]),
+     (.union [.none, cSub], [2]), (.union [cInt], [5]), (cSub, [0])] := by decide
+
+/-- Clause 1 after ANY such history, random provider: an offered generator's CURRENT generated type may be a subtype
+of the requested type (on the type graph of that moment). -/
+theorem random_sound_after_updates (key : Ty → String) (m : Nat) (prims : List Cls) (g : Graph) (accs : List Acc)
+    (ops : List WOp) (hinit : ∀ a ∈ accs, ∀ F, a.fixed = some F → F.isUnion = false ∧ a.ret = F)
+    (hreal : ∀ op ∈ ops, op.realistic (fixedOf accs)) (T : Ty) (i : Nat)
+    (h : i ∈ offeredRandom (World.run key m prims ⟨g, ⟨[], accs⟩⟩ ops).g
+      (World.run key m prims ⟨g, ⟨[], accs⟩⟩ ops).cl.tbl T) :
+    ∃ a, (World.run key m prims ⟨g, ⟨[], accs⟩⟩ ops).cl.accs[i]? = some a ∧
+      isMaybeSubtype (World.run key m prims ⟨g, ⟨[], accs⟩⟩ ops).g a.gen T = true := by
+  obtain ⟨p, hp, hi, hm⟩ := random_sound _ _ T i h
+  obtain ⟨a, ha, hk⟩ := updates_keep_table_consistent key m prims g accs ops hinit hreal p hp i hi
+  exact ⟨a, ha, sub_of_filed_key _ false (hk.imp id (·.2)) hm⟩
+
+/-- Clause 1 after ANY such history, heuristic provider (covariant reading of generic arguments, as in
+`heuristic_sound_cov`; literally when the requested type has no type arguments). -/
+theorem heuristic_sound_after_updates (key : Ty → String) (m : Nat) (prims : List Cls) (g : Graph) (accs : List Acc)
+    (ops : List WOp) (anyD : Nat) (hinit : ∀ a ∈ accs, ∀ F, a.fixed = some F → F.isUnion = false ∧ a.ret = F)
+    (hreal : ∀ op ∈ ops, op.realistic (fixedOf accs)) (T : Ty) (i : Nat) (d : Option Nat)
+    (hT : T.wf (World.run key m prims ⟨g, ⟨[], accs⟩⟩ ops).g = true)
+    (htbl : ∀ p ∈ (World.run key m prims ⟨g, ⟨[], accs⟩⟩ ops).cl.tbl,
+      p.1.wf (World.run key m prims ⟨g, ⟨[], accs⟩⟩ ops).g = true)
+    (h : (i, d) ∈ offeredHeuristic (World.run key m prims ⟨g, ⟨[], accs⟩⟩ ops).g anyD prims
+      (World.run key m prims ⟨g, ⟨[], accs⟩⟩ ops).cl.tbl T) :
+    ∃ a, (World.run key m prims ⟨g, ⟨[], accs⟩⟩ ops).cl.accs[i]? = some a ∧
+      isMaybeSubtypeCov (World.run key m prims ⟨g, ⟨[], accs⟩⟩ ops).g a.gen T = true ∧
+      (T.noArgs = true → isMaybeSubtype (World.run key m prims ⟨g, ⟨[], accs⟩⟩ ops).g a.gen T = true) := by
+  obtain ⟨p, hp, hi, hm⟩ := heuristic_sound_cov _ anyD prims _ T i d hT htbl h
+  obtain ⟨a, ha, hk⟩ := updates_keep_table_consistent key m prims g accs ops hinit hreal p hp i hi
+  refine ⟨a, ha, sub_of_filed_key _ true (hk.imp id (·.2)) hm, fun hna => ?_⟩
+  obtain ⟨p', hp', hi', hm'⟩ := heuristic_sound_partial _ anyD prims _ T i d hT htbl (Or.inl hna) h
+  obtain ⟨a', ha', hk'⟩ := updates_keep_table_consistent key m prims g accs ops hinit hreal p' hp' i hi'
+  rw [ha] at ha'; cases ha'
+  exact sub_of_filed_key _ false (hk'.imp id (·.2)) hm'
+
+/-- An observation that changes the return type files the generator under its new type … -/
+theorem update_files_under_new_type (key : Ty → String) (m : Nat) (cl : Cl) (i : Nat) (obs : Ty) (a : Acc)
+    (ha : cl.accs[i]? = some a) (hchg : tyBeq a.ret (addOrMakeUnion key m a.ret obs) = false) :
+    (updateReturnType key m cl i obs).accs[i]? = some { a with ret := addOrMakeUnion key m a.ret obs } ∧
+    ∃ p ∈ (updateReturnType key m cl i obs).tbl, p.1 = addOrMakeUnion key m a.ret obs ∧ i ∈ p.2 := by
+  have hlt : i < cl.accs.length := by
+    rcases Nat.lt_or_ge i cl.accs.length with h | h
+    · exact h
+    · rw [List.getElem?_eq_none h] at ha; cases ha
+  simp only [updateReturnType, ha, hchg, Bool.false_eq_true, if_false]
+  exact ⟨by rw [List.getElem?_set_self hlt], add1_self _ _ _⟩
+
+/-- … and every other generator stays in its bucket with its type knowledge unchanged. -/
+theorem update_keeps_others (key : Ty → String) (m : Nat) (cl : Cl) (i : Nat) (obs : Ty) (q : Ty × List Nat) (j : Nat)
+    (hq : q ∈ cl.tbl) (hj : j ∈ q.2) (hne : j ≠ i) :
+    (updateReturnType key m cl i obs).accs[j]? = cl.accs[j]? ∧
+    ∃ p ∈ (updateReturnType key m cl i obs).tbl, p.1 = q.1 ∧ j ∈ p.2 := by
+  unfold updateReturnType
+  split
+  · exact ⟨rfl, q, hq, rfl, hj⟩
+  · simp only
+    split
+    · exact ⟨rfl, q, hq, rfl, hj⟩
+    · refine ⟨by rw [List.getElem?_set_ne (fun e => hne e.symm)], ?_⟩
+      obtain ⟨p, hp, h1, h2⟩ := drop_keeps _ i hq hj hne
+      obtain ⟨p', hp', h1', h2'⟩ := add1_keeps _ i hp h2
+      exact ⟨p', hp', h1'.trans h1, h2'⟩
+
+/-- The order of the two steps matters: storing the new return type BEFORE `_drop_generator` makes the lookup go to
+the bucket of the new type; the un-annotated function 2 (filed under `Any`) observed to return a `Sub` stays under
+`Any` and keeps being offered for the unrelated request `list[int]`, although `Sub` is no `list[int]`.  The code as it
+is moves it. -/
+theorem update_order_matters_cex :
+    let cl0 : Cl := ⟨addAll primsC [(cSub, 0), (cBase, 1), (.any, 2), (cList cInt, 3)], accsC⟩
+    (updateReturnTypeStoreFirst (tyStr namesC) 5 cl0 2 cSub).tbl =
+      [(cSub, [0]), (cBase, [1]), (.any, [2]), (cList cInt, [3]), (.union [cSub], [2])] ∧
+    2 ∈ offeredRandom gC (updateReturnTypeStoreFirst (tyStr namesC) 5 cl0 2 cSub).tbl (cList cInt) ∧
+    isMaybeSubtype gC (.union [cSub]) (cList cInt) = false ∧
+    (updateReturnType (tyStr namesC) 5 cl0 2 cSub).tbl =
+      [(cSub, [0]), (cBase, [1]), (cList cInt, [3]), (.union [cSub], [2])] ∧
+    offeredRandom gC (updateReturnType (tyStr namesC) 5 cl0 2 cSub).tbl (cList cInt) = [3] := by decide
+
+/-- `_add_or_make_union`: `Any` or the same type become a one-element union, another type is merged in sorted by
+`str`, a union grows up to five members and never twice by the same type. -/
+example : addOrMakeUnion (tyStr namesC) 5 .any cSub = .union [cSub] ∧
+    addOrMakeUnion (tyStr namesC) 5 cSub cSub = .union [cSub] ∧
+    addOrMakeUnion (tyStr namesC) 5 cSub cBase = .union [cBase, cSub] ∧
+    addOrMakeUnion (tyStr namesC) 5 (.union [cBase, cSub]) cInt = .union [cInt, cBase, cSub] ∧
+    addOrMakeUnion (tyStr namesC) 5 (.union [cBase, cSub]) cSub = .union [cBase, cSub] ∧
+    addOrMakeUnion (tyStr namesC) 2 (.union [cBase, cSub]) cInt = .union [cBase, cSub] ∧
+    tyStr namesC (.union [cList cInt, .tuple false [cInt, .none], cG cStr]) = "list[int] | tuple[int, None] | m.G[str]" := by
+  decide
 
 end PynguinModel.Generators
